@@ -49,7 +49,8 @@ NonceChoices ==
   IF NonceMode = "top" THEN {NTop(2), NTop(1), NTop(0), NLo(0)}
   ELSE {NLo(0), NLo(1), NLo(2), <<"pow", 32, 0>>, <<"pow", 32, 1>>, <<"pow", 63, 0>>}
 
-PayT(id, j) == Lit((IF id = "I" THEN "ti" ELSE "tr") \o ToString(j), j + 2)
+PLenT(j) == 70 + j            \* longer than any public key
+PayT(id, j) == Lit((IF id = "I" THEN "ti" ELSE "tr") \o ToString(j), PLenT(j))
 BIG == 70000
 
 (* messages of a donor session with the same long-term keys: other split keys D1/D2 *)
@@ -75,7 +76,7 @@ OkStep == LastStep.exp.res = "ok"
 Send(id) ==
   /\ Tick /\ Sent(id) < MaxSend
   /\ LET j == Sent(id) + 1 p == PayT(id, j) IN
-     /\ \E buf \in (IF SmallBufs THEN {BIG, j + 2 + TAGLEN - 1} ELSE {BIG}) :
+     /\ \E buf \in (IF SmallBufs THEN {BIG, PLenT(j) + TAGLEN, PLenT(j) + TAGLEN - 1} ELSE {BIG}) :
           IF Stateful THEN TrWrite(id, p, buf)
           ELSE \E n \in NonceChoices : SlWrite(id, n, p, buf)
      /\ IF OkStep
@@ -107,7 +108,7 @@ Accepting(id) == seq' = IF OkStep THEN [seq EXCEPT ![id] = Append(@, LastStep.ex
 Deliver(id) ==           \* any pool message to any endpoint: reorder, loss, duplication, reflection
   /\ Tick
   /\ \E x \in pool :
-       \E ol \in (IF SmallBufs THEN {BIG, x.j + 1} ELSE {BIG}) : ReadIt(id, x.m, ol)
+       \E ol \in (IF SmallBufs /\ x.j <= MaxSend THEN {BIG, PLenT(x.j), PLenT(x.j) - 1} ELSE {BIG}) : ReadIt(id, x.m, ol)
   /\ Accepting(id)
   /\ cnt' = [cnt EXCEPT !.d = @ + 1]
   /\ UNCHANGED pool
